@@ -453,48 +453,58 @@ def run(chk):
                 nodes += chk.rng.choice(s_states(n)[:3] * 3 + [[]]) + chk.rng.choice(d_states(n, names[(k + 1) % len(names)]))
             nodes += chk.rng.choice(d_states(ctl, b"a.tar")[:6])
             lc.append((kind, names, nodes + OUT))
-    lic = [("copylinks", [kind, len(names)] + names + nodes) for kind, names, nodes in lc]
-    limpl = chk.run_impl(lic)
-    lmc, lpi = [], []
-    for (kind, names, nodes), i in zip(lc, limpl):
-        text = bytes.fromhex(i.rsplit(" ", 1)[1][1:]) if " " in i else b""
-        lmc.append(("copylinks", [b"x_1.0-1." + kind, len(names)] + names + nodes + [b"S", b"x_1.0-1." + kind, b"F", text]))
-        lpi.append(i.rsplit(" ", 1)[0] if " " in i else i)
-    lmodel = chk.run_model(lmc)
-    chk.compare("links-in-the-directories-vs-model", lmc, lpi, lmodel, nontrivial=lambda c, r: True, kernel=False)
-    for k in range(0, len(lmc), max(1, len(lmc) // 20)):
-        chk.kernel_pool.append((lmc[k], lmodel[k]))
-    for (kind, names, nodes), c, i in zip(lc, lic, limpl):
-        if i.split(" ", 1)[0] not in ("ok", "err"):
-            chk.violate({"kind": "property", "case": lib.show_case(c), "impl": i[:300], "explanation": "the copy did not finish normally"})
-            continue
-        after = {bytes.fromhex(a): (k_, bytes.fromhex(b)) for a, k_, b in re.findall(r"\( x([0-9a-f]*) ([FL]) x([0-9a-f]*) \)", i)}
-        before = {nodes[j] + b"/" + nodes[j + 1]: (nodes[j + 2].decode(), nodes[j + 3]) for j in range(0, len(nodes), 4)}
-        ctl = b"x_1.0-1." + kind
-        before[b"S/" + ctl] = ("F", bytes.fromhex(i.rsplit(" ", 1)[1][1:]))
-        def read(fs, name, fuel=40):
-            while fuel and name in fs and fs[name][0] == "L":
-                name, fuel = fs[name][1], fuel - 1
-            return fs[name][1] if fuel and name in fs and fs[name][0] == "F" else None
-        why = None
-        for name, node in before.items():
-            if not name.startswith(b"D/") and after.get(name) != node:
-                why = "%s, outside the destination directory, was %s and is %s after the copy" % (name.decode(), node, after.get(name))
-        for name in after:
-            if not name.startswith(b"D/") and name not in before:
-                why = "%s appeared outside the destination directory" % name.decode()
-        if i.startswith("ok"):
-            for n in names + [ctl]:
-                if read(after, b"D/" + n) is None or read(after, b"D/" + n) != read(before, b"S/" + n):
-                    why = why or "after a nil error %s in the destination does not read the bytes of the original" % n.decode()
-        elif after.get(b"D/" + ctl) != before.get(b"D/" + ctl) and (b"D/" + ctl) in after:
-            why = why or "the copy failed but a control file was put into the destination"
-        if why:
-            chk.violate({"kind": "property", "case": lib.show_case(c), "impl": i[:900], "explanation": why})
+    for lop in ("copylinks", "movelinks"):
+        lic = [(lop, [kind, len(names)] + names + nodes) for kind, names, nodes in lc]
+        limpl = chk.run_impl(lic)
+        lmc, lpi = [], []
+        for (kind, names, nodes), i in zip(lc, limpl):
+            text = bytes.fromhex(i.rsplit(" ", 1)[1][1:]) if " " in i else b""
+            lmc.append((lop, [b"x_1.0-1." + kind, len(names)] + names + nodes + [b"S", b"x_1.0-1." + kind, b"F", text]))
+            lpi.append(i.rsplit(" ", 1)[0] if " " in i else i)
+        lmodel = chk.run_model(lmc)
+        chk.compare("links-in-the-directories-vs-model-" + lop[:4], lmc, lpi, lmodel, nontrivial=lambda c, r: True, kernel=False)
+        for k in range(0, len(lmc), max(1, len(lmc) // 20)):
+            chk.kernel_pool.append((lmc[k], lmodel[k]))
+        for (kind, names, nodes), c, i in zip(lc, lic, limpl):
+            if i.split(" ", 1)[0] not in ("ok", "err"):
+                chk.violate({"kind": "property", "case": lib.show_case(c), "impl": i[:300], "explanation": "the operation did not finish normally"})
+                continue
+            after = {bytes.fromhex(a): (k_, bytes.fromhex(b)) for a, k_, b in re.findall(r"\( x([0-9a-f]*) ([FL]) x([0-9a-f]*) \)", i)}
+            before = {nodes[j] + b"/" + nodes[j + 1]: (nodes[j + 2].decode(), nodes[j + 3]) for j in range(0, len(nodes), 4)}
+            ctl = b"x_1.0-1." + kind
+            before[b"S/" + ctl] = ("F", bytes.fromhex(i.rsplit(" ", 1)[1][1:]))
+            def read(fs, name, fuel=40):
+                while fuel and name in fs and fs[name][0] == "L":
+                    name, fuel = fs[name][1], fuel - 1
+                return fs[name][1] if fuel and name in fs and fs[name][0] == "F" else None
+            inside = (b"D/",) if lop == "copylinks" else (b"D/", b"S/")
+            why = None
+            for name, node in before.items():
+                if not name.startswith(inside) and after.get(name) != node:
+                    why = "%s, outside the director%s the operation works in, was %s and is %s afterwards" % (name.decode(), "y" if len(inside) == 1 else "ies", node, after.get(name))
+            for name in after:
+                if not name.startswith(inside) and name not in before:
+                    why = "%s appeared outside the directories the operation works in" % name.decode()
+            if i.startswith("ok") and lop == "copylinks":
+                for n in names + [ctl]:
+                    if read(after, b"D/" + n) is None or read(after, b"D/" + n) != read(before, b"S/" + n):
+                        why = why or "after a nil error %s in the destination does not read the bytes of the original" % n.decode()
+            elif i.startswith("ok"):
+                for n in names + [ctl]:
+                    if after.get(b"D/" + n) != before.get(b"S/" + n) or (b"S/" + n) in after:
+                        why = why or "after a successful move %s is not in the destination as it was at its source (or is still at its source)" % n.decode()
+            else:
+                if after.get(b"D/" + ctl) != before.get(b"D/" + ctl) and (b"D/" + ctl) in after:
+                    why = why or "the operation failed but a control file was put into the destination"
+                if lop == "movelinks" and after.get(b"S/" + ctl) != before.get(b"S/" + ctl):
+                    why = why or "the move failed but the control file is no longer at its source"
+            if why:
+                chk.violate({"kind": "property", "case": lib.show_case(c), "impl": i[:900], "explanation": why})
     chk.extra["link_scenarios"] = len(lc)
     chk.extra["history_scenarios"] = len(hist)
     chk.extra["scenarios"] = len(scs)
     chk.trusted.append("the OS file system (ext4/overlay under /var/tmp) and inotify as the observer of the order of appearance")
+    chk.trusted.append("U20L models symbolic links only (a name is a file or a link to a name; at most 40 links are followed): hard links, directories as targets and permissions are outside it and are exercised by the uploadself / upload streams against predicates, not against the model")
     chk.assumptions += ["crash points are the model's primitive-call boundaries; failures are injected with real conditions (missing source, source is a directory, destination name occupied by a non-empty directory, non-empty directory to remove)",
                         "atomicity of rename/write under power loss is not claimed"]
 
